@@ -68,6 +68,19 @@ func observe(n datamodel.Node, sortmode string, links bool) string {
 	return sb.String()
 }
 
+// failWriter accepts `left` bytes and then fails every write
+type failWriter struct{ left int }
+
+func (w *failWriter) Write(p []byte) (int, error) {
+	if len(p) <= w.left {
+		w.left -= len(p)
+		return len(p), nil
+	}
+	n := w.left
+	w.left = 0
+	return n, fmt.Errorf("injected write failure")
+}
+
 func runCase(out *lib.Out, id string, sortmode string, links bool, holder string, v *lib.Val) {
 	var n datamodel.Node
 	err := lib.Safely(func() error {
@@ -119,6 +132,11 @@ func main() {
 	for _, i := range lib.IntPool {
 		runCase(out, next(), "rfc", true, "basic", &lib.Val{Kind: lib.KInt, I: i})
 	}
+	for _, i := range lib.IntPool {
+		if i.Sign() >= 0 {
+			runCase(out, next(), "rfc", true, "basicuint", &lib.Val{Kind: lib.KInt, I: i})
+		}
+	}
 	for _, f := range lib.FloatPool {
 		runCase(out, next(), "rfc", true, "basic", lib.FloatBits(f))
 	}
@@ -150,6 +168,20 @@ func main() {
 			}
 			h := holders[rng.Intn(len(holders))]
 			runCase(out, fmt.Sprintf("%s.%d", base, p), "rfc", true, h, pv)
+		}
+		if i%5 == 0 {
+			runCase(out, base+".u", "rfc", true, "basicuint", v)
+		}
+		if i%11 == 0 {
+			// state carried across calls: an Encode into a writer that fails part-way must not
+			// influence any later Encode (the next cases are the witnesses)
+			if n, err := lib.BuildBasic(v); err == nil {
+				var full bytes.Buffer
+				if dagcbor.Encode(n, &full) == nil && full.Len() > 0 {
+					fw := &failWriter{left: rng.Intn(full.Len())}
+					_ = lib.Safely(func() error { return dagcbor.Encode(n, fw) })
+				}
+			}
 		}
 		switch rng.Intn(6) {
 		case 0:
